@@ -6,11 +6,13 @@
 // Case file (written by checks/C19.py; the OCaml driver of the extracted model reads the same file):
 //   case <id>
 //   clk <fA n/d> <fB n/d | ->         absolute frequencies; "-" = one clock only (register RB is clocked by clock 0 too)
+//   x <f n/d>                         a ROOT clock that drives no clocked node (not part of the simulation program); clock index 2, 3, .. in order
+//   y <0|1> <m n/d>                   the same, DERIVED from clock 0 / 1 with frequency multiplier m
 //   p <step>*                         one top-level process per line, pid = position (0..)
 //   s <step>*                         one sub-script per line (fork targets), sid = position (0..)
 //   until <n/d>                       sim.advance(until) after powerOn
 //   end
-// steps:  K<c><B|D|A>  co_await WaitClock(clock c, BEFORE|DURING|AFTER)
+// steps:  K<c><B|D|A>  co_await WaitClock(clock c, BEFORE|DURING|AFTER); c = 0,1: clocks with registers, c >= 2: x/y clocks
 //         T<n>/<d>     co_await WaitFor(n/d seconds)
 //         H<mask>      co_await WaitChange over the signals whose bit is set in mask (bit i = signal i)
 //         S            co_await WaitStable()
@@ -76,7 +78,8 @@ static Step parseStep(const std::string &t) {
 	return s;
 }
 
-struct Case { std::string id; Rat fA{1, 1}, fB{1, 1}; bool two = false; std::vector<Script> procs, subs; Rat until{0, 1}; };
+struct XClk { bool derived = false; int parent = 0; Rat f{1, 1}; };
+struct Case { std::string id; Rat fA{1, 1}, fB{1, 1}; bool two = false; std::vector<XClk> extra; std::vector<Script> procs, subs; Rat until{0, 1}; };
 
 struct Sim : public sim::ReferenceSimulator {
 	Sim() : sim::ReferenceSimulator(false) {}
@@ -91,6 +94,7 @@ struct Ctx : public sim::SimulatorCallbacks {
 	Sim *sim = nullptr;
 	std::ostream *out = nullptr;
 	std::vector<Clock> clocks;              // 1 or 2
+	std::vector<Clock> extra;               // clocks without clocked nodes
 	std::vector<hlim::NodePort> sigs;       // RA RA2 RB C
 	std::optional<UInt> pins[2];
 	std::vector<OutputPins> outs;
@@ -136,9 +140,11 @@ static SimFunction<int> doStep(Ctx *cx, int pid, Step st)
 	switch (st.kind) {
 		case 'K': {
 			auto ph = st.ph == 'B' ? sim::WaitClock::BEFORE : st.ph == 'D' ? sim::WaitClock::DURING : sim::WaitClock::AFTER;
-			size_t c = (size_t)st.a < cx->clocks.size() ? (size_t)st.a : 0;
+			const hlim::Clock *clk;
+			if (st.a >= 2) clk = cx->extra.at(st.a - 2).getClk();
+			else clk = cx->clocks[(size_t)st.a < cx->clocks.size() ? (size_t)st.a : 0].getClk();
 			cx->log(pid, "susp " + st.text);
-			co_await sim::WaitClock(cx->clocks[c].getClk(), ph);
+			co_await sim::WaitClock(clk, ph);
 			cx->log(pid, "wake " + st.text);
 		} break;
 		case 'T':
@@ -264,6 +270,13 @@ static void runCase(const Case &cs, bool fiberMode, std::ostream &out)
 			cx.outs.push_back(pinOut(c).setName("c"));
 		}
 	}
+	for (size_t i = 0; i < cs.extra.size(); i++) {
+		const XClk &x = cs.extra[i];
+		if (x.derived)
+			cx.extra.push_back(cx.clocks[cs.two ? x.parent : 0].deriveClock(ClockConfig{.frequencyMultiplier = x.f, .name = "y" + std::to_string(i)}));
+		else
+			cx.extra.emplace_back(ClockConfig{.absoluteFrequency = x.f, .name = "x" + std::to_string(i), .resetType = ClockConfig::ResetType::NONE});
+	}
 	design.postprocess();
 	for (auto &o : cx.outs) cx.sigs.push_back(o.node()->getDriver(0));
 
@@ -306,6 +319,8 @@ int main(int argc, char **argv)
 		try {
 			if (tok[0] == "case") { cs = Case{}; cs.id = tok.at(1); open = true; }
 			else if (tok[0] == "clk") { cs.fA = parseRat(tok.at(1)); cs.two = tok.at(2) != "-"; if (cs.two) cs.fB = parseRat(tok.at(2)); }
+			else if (tok[0] == "x") { XClk x; x.f = parseRat(tok.at(1)); cs.extra.push_back(x); }
+			else if (tok[0] == "y") { XClk x; x.derived = true; x.parent = std::stoi(tok.at(1)); x.f = parseRat(tok.at(2)); cs.extra.push_back(x); }
 			else if (tok[0] == "p" || tok[0] == "s") { Script s; for (size_t i = 1; i < tok.size(); i++) s.push_back(parseStep(tok[i])); (tok[0] == "p" ? cs.procs : cs.subs).push_back(s); }
 			else if (tok[0] == "until") cs.until = parseRat(tok.at(1));
 			else if (tok[0] == "end" && open) { runCase(cs, fiberMode, out); open = false; }
